@@ -10,6 +10,6 @@ pub mod child;
 #[cfg(futures_buffered_verif)]
 pub mod fub;
 #[cfg(futures_buffered_verif)]
-pub mod harnesses;
+pub mod fu;
 #[cfg(futures_buffered_verif)]
-pub mod probes;
+pub mod harnesses;
